@@ -28,7 +28,7 @@ ASSUMPTIONS = [
 
 def plan(tier, seed):
     n = 14 if tier == "quick" else 46
-    return [{"n": 260 if tier == "quick" else 1500} for _ in range(n)]
+    return [{"n": 1200 if tier == "quick" else 5000} for _ in range(n)]
 
 
 def expected(doc, base_parts, sels, style):
@@ -83,7 +83,7 @@ def check_case(ctx, doc, mq_ast, mq_text, rel_asts, rel_texts, style, cls):
     import jsonpath
 
     ctx.evaluation()
-    case = {"doc": doc, "mq_ast": mq_ast, "mq_text": mq_text, "rel_asts": rel_asts, "rel_texts": rel_texts, "style": style, "class": cls}
+    case = {"doc": impl.fresh(doc), "mq_ast": mq_ast, "mq_text": mq_text, "rel_asts": rel_asts, "rel_texts": rel_texts, "style": style, "class": cls}
     snap = Snapshot(doc)
     proj = getattr(jsonpath.Projection, style)
     ms = impl.call(lambda: list(jsonpath.finditer(mq_text, doc)))
